@@ -2,7 +2,11 @@
 // as zip/CSV in many presentations, and the projection of a parsed gtfs.Static back into tokens.
 package st
 
-import "sort"
+import (
+	"fmt"
+	"sort"
+	"strconv"
+)
 
 // String pools per column family; token 0 is the empty string. Pools whose ids the library sorts by
 // (shape ids, service ids) are in byte-wise order, with "10" before "9".
@@ -90,10 +94,21 @@ func PoolOf(col string) []string {
 	return Names // unknown (extra) columns
 }
 
+// Tokens >= SynthBase are synthesized identifiers "zz<5 digits>": they sort after every pool entry and among
+// themselves by number, so token order is still byte-wise order (used by the large generated feeds).
+const SynthBase = 100
+
+func synth(tok int) string { return fmt.Sprintf("zz%05d", tok) }
+
 func tokOf(pool []string, s string) int {
 	for i, x := range pool {
 		if x == s {
 			return i
+		}
+	}
+	if len(s) == 7 && s[:2] == "zz" {
+		if n, err := strconv.Atoi(s[2:]); err == nil && n >= SynthBase && synth(n) == s {
+			return n
 		}
 	}
 	return -1
